@@ -58,6 +58,16 @@ def mk_value(mpc, ty, pid):
     raise ValueError(ty)
 
 
+def mk_nodes(spec):
+    kind, v = spec
+    return v if kind == 'int' else range(*v) if kind == 'range' else list(v)
+
+
+def nodes_of(spec):
+    kind, v = spec
+    return [v] if kind == 'int' else list(range(*v)) if kind == 'range' else list(v)
+
+
 def lst(x):
     return ','.join(map(str, x)) if len(x) else '-'
 
@@ -71,7 +81,16 @@ def run_scenario(sc, lines, impl):
     async def prog(mpc):
         if ty == 'transfer':
             rec.mark('a')
-            res = await mpc.transfer(('secret', mpc.pid), sender_receivers=[tuple(a) for a in sc['arcs']])
+            form = sc.get('form', 'arcs')
+            if form == 'dict':      # the same graph as a dict node -> receivers (every node is a key)
+                g = {a: [b for a_, b in map(tuple, sc['arcs']) if a_ == a] for a in range(m)}
+                res = await mpc.transfer(('secret', mpc.pid), sender_receivers=g)
+            elif form == 'bip':     # complete bipartite graph senders x receivers (list / range / int arguments)
+                res = await mpc.transfer(('secret', mpc.pid), senders=mk_nodes(sc['S']), receivers=mk_nodes(sc['Rv']))
+                if not isinstance(res, list):
+                    res = [] if res is None else [res]
+            else:
+                res = await mpc.transfer(('secret', mpc.pid), sender_receivers=[tuple(a) for a in sc['arcs']])
             rec.mark('b')
             return res, None
         x, plain = mk_value(mpc, ty, mpc.pid)
@@ -109,6 +128,8 @@ def run_scenario(sc, lines, impl):
                     return f'transfer: party {p} sent a message to {j}, which has no incoming arc'
             if p not in targets and res[p][0] not in ([], None):
                 return f'transfer: party {p} without incoming arc obtained {res[p][0]!r}'
+            if p in targets and sorted(res[p][0]) != sorted(('secret', a) for a in ms):
+                return f'transfer: party {p} obtained {res[p][0]!r}, expected the objects of its senders {ms}'
         sc['_msgs'] = nmsg
         return None
     Rl = [R] if isinstance(R, int) else list(range(m)) if R is None else list(R)
@@ -208,7 +229,20 @@ def gen(ctx, rng, k):
     sc = {'m': m, 't': t, 'no_prss': rng.random() < 0.3, 'seed': rng.randrange(10**6), 'type': ty,
           'mode': rng.choice(['random', 'starve', 'lazynet', 'eagernet'])}
     if ty == 'transfer':
-        sc['arcs'] = [(a, b) for a in range(m) for b in range(m) if rng.random() < 0.3]
+        sc['form'] = rng.choice(['arcs', 'dict', 'bip'])
+        if sc['form'] == 'bip':
+            def nodes():
+                r = rng.random()
+                if r < 0.25:
+                    return ['int', rng.randrange(m)]
+                if r < 0.5:
+                    lo = rng.randrange(m)
+                    return ['range', [lo, rng.randrange(lo, m + 1)]]
+                return ['list', rng.sample(range(m), rng.randrange(0, m + 1))]
+            sc['S'], sc['Rv'] = nodes(), nodes()
+            sc['arcs'] = [(a, b) for a in nodes_of(sc['S']) for b in nodes_of(sc['Rv'])]
+        else:
+            sc['arcs'] = [(a, b) for a in range(m) for b in range(m) if rng.random() < 0.3]
         sc['R'] = None
     else:
         r = rng.random()
